@@ -25,8 +25,8 @@ def DEC2HEX(dec, places=DEFAULT):
         places = utils.parse_number(places)
         if isinstance(places, error.XLError):
             return places
-        if places < 0:
-            return error.NUM
+        if places < 0 or places > 255:
+            return error.NUM  # (padding to an arbitrary length takes unbounded memory)
     if isinstance(dec, float):
         dec = int(dec)  # a computed number (510/2) is a float; hex() needs an integer
     if isinstance(places, float):
